@@ -136,7 +136,8 @@ type Art struct {
 	Child   bool   `json:"child"`   // digest push with WithManifestChild (as regctl artifact put does)
 	// dimensions added by the generator-domain audit (zero values = the original behaviour)
 	Shared         bool `json:"shared,omitempty"`          // with ByTag: pushed to the tag "shared" that other artifacts use too
-	Sha512         bool `json:"sha512,omitempty"`          // the artifact is identified by its sha512 digest (pushed by digest)
+	Sha512         bool `json:"sha512,omitempty"`          // the manifest object is built under sha512 (pushed by digest)
+	OtherAlg       bool `json:"other_alg,omitempty"`       // pushed to a digest reference of the OTHER algorithm over the same bytes (sha256 object -> @sha512:..., sha512 object -> @sha256:...): the reference's digest is what the manifest is stored under
 	PartialSubject bool `json:"partial_subject,omitempty"` // subject descriptor carries only the digest
 	NoMediaType    bool `json:"no_media_type,omitempty"`   // image kind: body without the optional mediaType field
 }
@@ -146,7 +147,8 @@ type rart struct {
 	Art
 	idx       int
 	body      []byte
-	digest    string
+	digest    string // the digest the manifest is stored and listed under (= the digest of the push reference)
+	objDigest string // the digest the pushed manifest object carries (differs from digest with OtherAlg)
 	mediaType string
 	subject   string // subject digest
 	expType   string // artifact type a referrers listing must show
@@ -268,7 +270,15 @@ func build(arts []Art, sha512Absent bool) *universe {
 		if a.Sha512 {
 			r.digest = rm.Digest("sha512", r.body)
 		}
-		if a.ByTag && !a.Sha512 { // a tag push with a non-canonical digest is marked experimental in the client: not generated
+		r.objDigest = r.digest
+		if a.OtherAlg {
+			if a.Sha512 {
+				r.digest = rm.Digest("sha256", r.body)
+			} else {
+				r.digest = rm.Digest("sha512", r.body)
+			}
+		}
+		if a.ByTag && !a.Sha512 && !a.OtherAlg { // a tag push with a non-canonical digest is marked experimental in the client: not generated
 			r.tag = fmt.Sprintf("art%d", i)
 			if a.Shared {
 				r.tag = sharedTag
